@@ -1498,14 +1498,31 @@ fn cmp_movegen(mg: &MoveGenerator, p: &RPos, rep: &mut Report) -> bool {
     }
     true
 }
+/// every generated move played on the real board gives the successor the rules prescribe (C02)
+fn cmp_make(mg: &MoveGenerator, p: &RPos, rep: &mut Report) -> bool {
+    let b = eng_board(p);
+    for m in mg.generate_moves(&b) {
+        let u = m.to_algebraic();
+        let rm = match legal_moves(p).into_iter().find(|x| x.uci() == u) { Some(x) => x, None => continue };
+        let nb = b.clone_with_move(&m);
+        let np = apply(p, rm);
+        rep.evals += 1;
+        if eng_pos_string(&nb) != ref_pos_string(&np) {
+            rep.violation = Some(format!("{{\"input\": {{\"fen\": {}, \"move\": {}}}, \"real\": {}, \"expected\": {}}}", jstr(&to_fen(p)), jstr(&u), jstr(&eng_pos_string(&nb)), jstr(&ref_pos_string(&np))));
+            return false;
+        }
+    }
+    true
+}
 /// exhaustive small-board families (complete within each family, time-capped across families):
 ///  (A) en passant: capturing pawn x pushed pawn x mover's king anywhere x one enemy line piece anywhere (x a second own man)
 ///  (C) promotions: pawn on the seventh x mover's king anywhere x one enemy man anywhere
 ///  (B) four men: both kings + one man of the mover + one enemy man (all kinds, all squares), either side to move
 fn movegen_small(args: &[String]) -> i32 {
     let secs = num_arg(args, "secs", 60) as u64;
+    let make = str_arg(args, "what") == Some("make");
     let t0 = std::time::Instant::now();
-    let mut rep = Report::new("movegen-small", &format!("exhaustive small-board families, time cap {} s: (A) all en-passant set-ups with the mover's king anywhere and one enemy bishop/rook/queen anywhere; (C) all promotion set-ups (pawn on its seventh rank on every file, mover's king anywhere, one enemy man of any kind anywhere, enemy king in a far corner), complete; (B) mover's king anywhere, enemy king on a1 or h8, one man each (all kinds, all squares, both sides to move), enumerated in a fixed order (enemy line pieces first) until the cap", secs));
+    let mut rep = Report::new("movegen-small", &format!("exhaustive small-board families, time cap {} s: (A) all en-passant set-ups with the mover's king anywhere and one enemy bishop/rook/queen anywhere (or a second enemy pawn), generated moves compared and - for the pawn variant or with --what=make - every move played and its successor compared; (C) all promotion set-ups (pawn on its seventh rank on every file, mover's king anywhere, one enemy man of any kind anywhere, enemy king in a far corner), complete; (B) mover's king anywhere, enemy king on a1 or h8, one man each (all kinds, all squares, both sides to move), enumerated in a fixed order (enemy line pieces first) until the cap", secs));
     let mg = MoveGenerator::new();
     // (A)
     for white in [true, false] {
@@ -1515,7 +1532,8 @@ fn movegen_small(args: &[String]) -> i32 {
             let vf = f as i32 + df; if !(0..8).contains(&vf) { continue; }
             let from = r5 * 8 + f; let victim = r5 * 8 + vf as usize; let ep = r6 * 8 + vf as usize; let origin = r7 * 8 + vf as usize;
             for ok in [if white { 63usize } else { 0 }, if white { 56 } else { 7 }] {
-                for k in 0..64usize { for sl in 0..64usize { for pc in [Pc::B, Pc::R, Pc::Q] {
+                for k in 0..64usize { for sl in 0..64usize { for pc in [Pc::B, Pc::R, Pc::Q, Pc::P] {
+                    if pc == Pc::P && (sl < 8 || sl >= 56 || k % 9 != 0) { continue; }   // (an extra enemy pawn: fewer king squares)
                     let mut p = empty_pos(me);
                     let occ = [from, victim, ep, origin, ok, k, sl];
                     let mut dup = false; for i in 0..occ.len() { for j in 0..i { if occ[i] == occ[j] { dup = true; } } }
@@ -1524,6 +1542,7 @@ fn movegen_small(args: &[String]) -> i32 {
                     p.ep = Some(ep as u8);
                     if !valid(&p) { continue; }
                     if !cmp_movegen(&mg, &p, &mut rep) { return rep.finish(); }
+                    if (make || pc == Pc::P) && !cmp_make(&mg, &p, &mut rep) { return rep.finish(); }
                     rep.distinct += 1;
                 } } }
                 if t0.elapsed().as_secs() > secs / 2 { break; }
